@@ -201,6 +201,7 @@ def run(chk: Check) -> None:
     run_pos_only_special_methods(chk, ix)
     run_count_guard_agreement(chk, ix)
     run_shared_validators(chk, ix)
+    run_overload_helpers_thread_context(chk, ix)
 
     r3 = chk.rule("R14.3", "Errors.report clamps end_line >= line and (same line) end_column > column before the ErrorInfo is built", floor=2)
     rp = ix.func("mypy.errors.Errors.report")
@@ -619,3 +620,37 @@ def run_shared_validators(chk: Check, ix) -> None:
             r10.ok(key, f"mypy/nativeparse.py:{n_calls[full]}")
         else:
             r10.violation(key, f"mypy/fastparse.py:{ln}", f"fastparse.py calls {full}; nativeparse.py never does: what the helper rejects or marks under the default parser is accepted or left unmarked under --native-parser")
+
+
+def run_overload_helpers_thread_context(chk: Check, ix) -> None:
+    """R14.11: the conditional-overload helpers of both front ends pass their context on when they recurse."""
+    r = chk.rule("R14.11", "the helpers that decide whether an `if` statement belongs to an overload (fastparse `_check_ifstmt_for_overloads` / `_get_executable_if_block_with_overloads`, nativeparse `check_ifstmt_for_overloads` / `get_executable_if_block_with_overloads`) recurse into `elif` chains; a helper that takes the current overload name as a defaulted parameter passes it in every call of itself, in both front ends alike (a recursive call that falls back to the default `None` rejects an undecorated implementation in an `elif` branch, which the other parser accepts)", floor=2)
+    n = 0
+    for mn in ("mypy.fastparse", "mypy.nativeparse"):
+        m = ix.module(mn)
+        cands = list(m.functions.values()) + [mm for c in m.classes.values() for mm in c.methods.values()]
+        for f in cands:
+            if "ifstmt_for_overloads" not in f.name and "if_block_with_overloads" not in f.name:
+                continue
+            a = f.node.args
+            params = [p.arg for p in a.posonlyargs + a.args if p.arg != "self"]
+            ndef = len(a.defaults)
+            defaulted = params[len(params) - ndef:] if ndef else []
+            if not defaulted:
+                continue
+            selfcalls = [c for c in ast.walk(f.node) if isinstance(c, ast.Call) and call_name(c) == f.name]
+            if not selfcalls:
+                continue
+            n += 1
+            key = f"{mn.split('.')[-1]}.{f.name}: recursive calls pass {defaulted}"
+            bad = None
+            for c in selfcalls:
+                given = set(params[: len(c.args)]) | {k.arg for k in c.keywords}
+                if not set(defaulted) <= given:
+                    bad = c
+            if bad is None:
+                r.ok(key, f.loc(selfcalls[0]))
+            else:
+                r.violation(key, f.loc(bad), f"`{norm(bad)[:90]}` leaves {sorted(set(defaulted) - (set(params[: len(bad.args)]) | {k.arg for k in bad.keywords}))} at its default: inside an `elif` chain the helper no longer knows the name of the overload being collected, so the undecorated implementation in an `elif` branch is not merged (no-overload-impl / no-redef under this parser only)")
+    if n < 2:
+        raise AnalysisError(f"only {n} recursive conditional-overload helpers with a defaulted context parameter found")
